@@ -31,7 +31,7 @@ ASSUMPTIONS = [
 ]
 COMPONENTS = {"real": ["TradingEnv", "Transmitter", "Broker", "Exchange", "IState", "Feature", "FutureChain", "AbstractContract.now"],
               "harness": ["seeded call-level scheduler", "recording observers", "fault ops (clock write, PRNG draw)"], "stub": []}
-PROBE_FLOORS = {"copy_and_original_stepped_side_by_side": 400, "running_environment_copied_by_pickle": 35, "running_environment_copied_by_deepcopy": 40, "folds_split_at_the_intraday_cutoff_of_a_roll_day": 5, "chain_environment_with_folds": 60, "two_chain_envs_different_leads": 8, "prefix_malformed_action": 34, "prefix_missing_price": 3, "prefix_ruin": 5,
+PROBE_FLOORS = {"two_envs_with_library_weight_features_of_different_bounds": 3, "copy_and_original_stepped_side_by_side": 400, "running_environment_copied_by_pickle": 35, "running_environment_copied_by_deepcopy": 40, "folds_split_at_the_intraday_cutoff_of_a_roll_day": 5, "chain_environment_with_folds": 60, "two_chain_envs_different_leads": 8, "prefix_malformed_action": 34, "prefix_missing_price": 3, "prefix_ruin": 5,
                 "prefix_abandoned_at_step_0": 18, "clock_left_in_future_by_prefix": 82, "interleaved_envs_ge_2": 59,
                 "foreign_clock_write": 47, "foreign_prng_draw": 50, "prefix_on_other_fold": 6, "timesteps_without_events": 14, "prefix_observer_crash_fired": 23, "two_envs_sharing_the_default_reward_object": 4, "observer_crash_during_reset": 16, "observer_crash_during_step": 8}
 
@@ -50,6 +50,9 @@ def gen_plain_env(rng):
         env["reward"] = "default"       # built without reward=: the constructor's default object, shared process-wide
     if rng.random() < 0.2:
         env["state"]["twin_class"] = True   # a same-named observer class with fewer subscriptions was instanced earlier
+    if rng.random() < 0.35:
+        # the library's portfolio-weight feature with this environment's own declared bounds
+        env["state"]["pw_feature"] = rng.choice([[-1.0, 1.0], [0.0, 1.0], [-0.5, 2.0], [-3.0, 3.0], [0.0, 4.0]])
     meta = {"kind": "plain", "late": None, "shock": None, "fold": rng.choice(sorted(env["folds"])) if env.get("folds") else None}
     grid = [core.parse_t(x) for x in env["grid"]]
     n = len(grid)
@@ -457,6 +460,8 @@ def execute(scenario):
                 if prev_last is not None and first_ref_now is not None and prev_last > first_ref_now:
                     probe("clock_left_in_future_by_prefix")
     kinds = scenario["meta"]["kinds"]
+    if len({tuple(e["state"]["pw_feature"]) for e in scenario["envs"] if e.get("state", {}).get("pw_feature")}) >= 2:
+        probe("two_envs_with_library_weight_features_of_different_bounds")
     if sum(1 for e in scenario["envs"] if e.get("reward") == "default") >= 2:
         probe("two_envs_sharing_the_default_reward_object")
     if n_env >= 2:
